@@ -314,6 +314,10 @@ def run(ck):
                           "(its insert task panics with `empty rowset` while flushing a mem-rowset that received only zero-row chunks - a source row-set whose rows are all filtered out; "
                           "row-set ids and directories are leaked, and when other chunks did carry rows those rows are lost)" % (s["sql"][:120], i.get("mout")),
                           replay=rp)
+            if empty_chunk:
+                # the disk side committed nothing (and leaked a row-set id): table contents and later ids
+                # legitimately differ from here on, by the recorded mechanism
+                break
             if s["k"] in ("create", "drop", "view", "index", "insert", "delete") and not empty_chunk:
                 if i.get("mout") != i["out"]:
                     bad_here = ("outcome of `%s`" % s.get("sql", s["k"])[:80], i.get("mout"), i["out"])
